@@ -90,7 +90,8 @@ def cmd_check(name, ids):
     results = {}
     try:
         for pid in ids:
-            rc, out = sh(f"./check {pid} --tier quick", cwd=VERIF, timeout=3600)
+            env = dict(os.environ, VERIF_EVIDENCE_DIR="/tmp/seed_evidence")     # never overwrite the committed evidence
+            rc, out = sh(f"./check {pid} --tier quick", cwd=VERIF, env=env, timeout=3600)
             viol = [l for l in out.splitlines() if l.startswith("VIOLATION")]
             clauses = sorted({l.split("refuted:")[1].strip().split("@")[0].split("[")[0] for l in out.splitlines() if "refuted:" in l})
             results[pid] = {"exit": rc, "violations": len(viol), "clauses": clauses,
